@@ -802,7 +802,7 @@ static void run_history_ops(int hidx, int len)
             continue;
         } else {
             live_t *L = &S[sl]; int n = L->s.n, k = L->c.k, tol = cfg_tol(&L->c);
-            char *lst[80]; int cnt = 0; uint8_t *tmp[4] = {0}; int ntmp = 0;
+            char *lst[80]; int cnt = 0; uint8_t *tmp[4] = {0}; int ntmp = 0; int wsel = -1;
             void *misb[80]; int nmis = 0;
             /* about half of the calls hand in some fragments at addresses that are not 16-byte aligned (data and parity),
              * which makes the library work on private aligned copies that it has to release itself */
@@ -828,6 +828,10 @@ static void run_history_ops(int hidx, int len)
                 if (op == O_DECODE_DUP && cnt) { lst[cnt] = lst[rng_below(&r, (uint32_t)cnt)]; cnt++; lst[cnt] = lst[0]; cnt++; }
                 if ((op == O_DECODE_BADHDR || op == O_DECODE_RESEALED) && cnt) {
                     int w = (int)rng_below(&r, (uint32_t)cnt);
+                    /* half of the re-sealed edits go to the listed fragment with the LOWEST index (the one whose header the
+                     * library sizes the whole stripe by) */
+                    if (op == O_DECODE_RESEALED && rng_below(&r, 2)) { int best = 0; for (int i = 1; i < cnt; i++) if (ref_get32((uint8_t *)lst[i] + REF_OFF_IDX) < ref_get32((uint8_t *)lst[best] + REF_OFF_IDX)) best = i; w = best; }
+                    wsel = w;
                     tmp[ntmp] = malloc(L->s.flen); memcpy(tmp[ntmp], lst[w], L->s.flen);
                     if (op == O_DECODE_BADHDR) tmp[ntmp][rng_below(&r, 71)] ^= (uint8_t)(1 + rng_below(&r, 255));
                     else { int kind = (int)rng_below(&r, 4);
@@ -837,6 +841,9 @@ static void run_history_ops(int hidx, int len)
                     lst[w] = (char *)tmp[ntmp]; ntmp++;
                 }
 resealed_done: ;
+                /* the edited fragment itself is handed in at an address that is not 16-byte aligned every other time (the
+                 * library then works on a private aligned copy of a fragment it is about to refuse) */
+                if (wsel >= 0 && rng_below(&r, 2)) { void *b_ = NULL; if (posix_memalign(&b_, 16, L->s.flen + 16)) abort(); int o_ = 1 + (int)rng_below(&r, 15); memcpy((char *)b_ + o_, lst[wsel], L->s.flen); lst[wsel] = (char *)b_ + o_; misb[nmis++] = b_; mon_count("history_edited_fragments_misaligned", 1); }
                 static char *dummy[1];
                 char *out = NULL; uint64_t ol = 0;
                 int rc = liberasurecode_decode(L->desc, cnt ? lst : dummy, cnt, L->s.flen, (int)rng_below(&r, 2), &out, &ol);
